@@ -524,8 +524,8 @@ def random_jobs(seed, count, disk_every):
 def default_threshold_jobs():
     """the library default (threshold 100): 99 / 100 / 101 mazes through serialize() and save()/read()"""
     jobs = []
-    for n in (99, 100, 101):
-        for mode in ("permaze", "collected"):
+    for n in (99, 100, 101, 129, 257):
+        for mode in ("permaze", "collected") if n < 129 else ("permaze",):
             rc = dict(kind="gen", gen=0, g=3, n=n, ep="short" if n == 100 else "free", seed=42, mode=mode, rewrap=True)
             jobs.append(dict(recipe=rc, trips=[("serialize", "mem", 100), ("serialize", "disk", 100), ("serialize", "mem", None), ("serialize", "mem", n + 1)]))
     return jobs
